@@ -19,6 +19,8 @@ def setup_symbolic():
 
 
 def prog(env, case):
+    if case.get('kind') == 'temporaries':
+        return prog_temporaries(env, case)
     from PEPit import PEP, Point
     from PEPit.block_partition import BlockPartition
     d = case['d']
@@ -182,8 +184,34 @@ def prog(env, case):
     return trace
 
 
+def prog_temporaries(env, case):
+    """points that nobody keeps a reference to are decomposed, then fresh points: each must get ITS OWN blocks"""
+    from PEPit import PEP, Point
+    from vf.props.c04 import trivial as _trivial
+    d = case['d']
+    pep = PEP()
+    part = pep.declare_block_partition(d=d)
+    p0, p1 = Point(), Point()
+    a = env.real("a")
+    bad = 0
+    for rep in range(12):
+        part.get_block(p0 - p1, rep % d)            # a temporary: unreachable as soon as the call returns
+        part.get_block(a * p0, (rep + 1) % d)
+        z = p0 + p1 if rep % 2 == 0 else a * p1      # a brand-new point (may be allocated where the temporary lived)
+        blocks = [part.get_block(z, k) for k in range(d)]
+        acc = None
+        for bk in blocks:
+            acc = bk if acc is None else acc + bk
+        diff = (acc - z).decomposition_dict
+        if not _trivial(env, dict(diff)):
+            bad += 1
+    env.check(bad == 0, "blocks returned for a new point do not sum back to it in %d of 12 rounds (blocks of another, "
+              "already discarded point were returned)" % bad, signature="C15:d%d:foreign-blocks" % d)
+    return "temporaries"
+
+
 def cases(tier):
-    cs = []
+    cs = [dict(id="temporaries-d2", d=2, kind='temporaries'), dict(id="temporaries-d3", d=3, kind='temporaries')]
     for d in ((1, 2, 3) if tier == 'quick' else (1, 2, 3, 4)):
         npts = {1: 3, 2: 3, 3: 2, 4: 2}[d] if tier == 'quick' else {1: 4, 2: 4, 3: 3, 4: 2}[d]
         for first in range(5):
